@@ -131,50 +131,16 @@ def graph_to_numpy(causal_graph):
     bidirected edge. Note, this is not an issue for any other common causal graph
     class because there only one edge is supported between any two nodes.
     """
-    undirected_edge_name = "undirected"
-    bidirected_edge_name = "bidirected"
-
     # master list of nodes is in the internal dag
     node_list = causal_graph.nodes
     n_nodes = len(node_list)
 
+    # every edge type contributes its own value; the values of the edge types between the same
+    # pair of nodes add up (undirected and bidirected edges are symmetric entries)
     numpy_graph = np.zeros((n_nodes, n_nodes))
-    bidirected_graph_arr = None
-    undirected_graph_arr = None
-
-    graph_map = dict()
     for edge_type, graph in causal_graph.get_graphs().items():
-        # handle "undirected" type graphs separately
-        # handle bidirected edge separately
-        if edge_type == bidirected_edge_name:
-            bidirected_graph_arr = nx.to_numpy_array(graph, nodelist=node_list)
-            continue
-        if edge_type == undirected_edge_name:
-            undirected_graph_arr = nx.to_numpy_array(graph, nodelist=node_list)
-            continue
-
         # convert internal graph to a numpy array
         graph_arr = nx.to_numpy_array(graph, nodelist=node_list)
         graph_arr[graph_arr != 0] = EDGE_TO_VALUE_MAPPING[edge_type]
-        graph_map[edge_type] = graph_arr
-
-    # ADMGs can have two edges between any 2 nodes
-    if type(causal_graph).__name__ == "ADMG":
-        # we handle this case separately from the other graphs
-        if len(graph_map) != 1:
-            raise AssertionError(f"The number of graph maps should be 1, not {len(graph_map)}...")
-
-        # set all bidirected edges with value 10
-        bidirected_graph_arr[bidirected_graph_arr != 0] = EDGE_TO_VALUE_MAPPING[
-            bidirected_edge_name
-        ]
-        undirected_graph_arr[undirected_graph_arr != 0] = EDGE_TO_VALUE_MAPPING[
-            undirected_edge_name
-        ]
-        numpy_graph += bidirected_graph_arr
         numpy_graph += graph_arr
-    else:
-        # map each edge to an edge value
-        for _, graph_arr in graph_map.items():
-            numpy_graph += graph_arr
     return numpy_graph
